@@ -180,6 +180,13 @@ func (nc *Coordinator) Configure() {
 		viper.SetDefault(configRoot+".send-interval", viper.GetInt64(configRoot+".interval"))
 		viper.SetDefault(configRoot+".threshold", 2)
 
+		// The interval paces the evaluation of every group. It is used as a number of seconds in a time.Duration and as
+		// the bound of a random delay, so it must be positive and must not overflow a time.Duration
+		interval := viper.GetInt64(configRoot + ".interval")
+		if interval < 1 || interval > math.MaxInt64/int64(time.Second) {
+			panic("Notifier '" + name + "' has an invalid interval (must be between 1 and 9223372036 seconds)")
+		}
+
 		// Check for disallowed config values
 		if viper.IsSet(configRoot+".group-whitelist") || viper.IsSet(configRoot+".group-blacklist") {
 			nc.Log.Panic("Please change configurations to allowlist and denylist", zap.String("module", name))
@@ -234,7 +241,6 @@ func (nc *Coordinator) Configure() {
 		module := getModuleForClass(nc.App, name, viper.GetString(configRoot+".class-name"), groupAllowlist, groupDenylist, extras, templateOpen, templateClose)
 		module.Configure(name, configRoot)
 		nc.modules[name] = module
-		interval := viper.GetInt64(configRoot + ".interval")
 		if interval < nc.minInterval {
 			nc.minInterval = interval
 		}
